@@ -154,8 +154,6 @@ def random_layout(rng, unsigned=False):
         total = used + need + rng.randrange(0, 500)
     else:
         total = rng.randrange(0, used + need + 100)
-    if unsigned:
-        total = max(total, used)                      # physical layouts only: unsigned sums cannot wrap
     return (tuple(hashes), tuple(refs), tuple(caps), total, tuple(newh), tuple(newl), 'u' if unsigned else 'i')
 
 
@@ -547,11 +545,8 @@ def run_history(hist):
         if mop is not None:
             mops.append(mop)
             steps.append({'op': op, 'outcome': outcome, 'state': st, 'anomalies': list(d.dev.anomalies)})
-        if sum(st[1]) > hist['total']:
-            # capacities recorded by the driver exceed the instrument's memory: a real instrument would have
-            # refused; numpy's unsigned arithmetic may wrap from here on. The history is cut (counted).
-            overflow_at = j
-            break
+        if overflow_at is None and sum(st[1]) > hist['total']:
+            overflow_at = j       # recorded capacities exceed the instrument's memory (observation, see notes)
     line = sx(['c19', 'history', hist['total'], d.idle, mops])
     return d, steps, line, overflow_at
 
@@ -582,7 +577,7 @@ def check_histories(ctx, hists, label):
         ctx.case(line, nontrivial=len(steps) > 2)
         ctx.count('%s:histories' % label)
         if ov is not None:
-            ctx.count('%s:cut-at-capacity-overflow' % label)
+            ctx.count('%s:recorded-capacities-exceed-memory' % label)
         violated = False
         for j, (s, v, t) in enumerate(zip(steps, verdicts, trace[1:])):
             ctx.count('%s:op:%s:%s' % (label, s['op'][0], s['outcome']))
@@ -729,8 +724,7 @@ def run(ctx: core.Ctx):
                 '(decision) / more than two operations (history); distinct by canonical request line')
     ctx.assumptions = [
         'hash collisions between different segments are absent (the driver identifies segment data by hash)',
-        'physical memories only for the unsigned dtypes: the recorded capacities do not exceed total_capacity, so '
-        'numpy\'s uint64 subtraction cannot wrap; histories are cut where the driver leaves that domain (counted)',
+        'integers are exact: lengths, capacities and their sums stay below 2^63 (no int64/uint64 overflow in the sums)',
         'fewer than 2^32 programs refer to one slot (uint32 reference counters do not overflow upwards)',
         'the fake instrument keeps segment data across SEGM:DATA / TRAC:DEF of other segments and splits a combined '
         'write by the lengths it is told afterwards',
